@@ -3,7 +3,7 @@
 observation mode), classifies what TLC reports, writes evidence files."""
 import json, os, re, subprocess, sys, time, hashlib, shutil, tempfile
 
-ROOT = '/verif'
+ROOT = os.path.dirname(os.path.dirname(os.path.abspath(__file__)))     # /verif, or a snapshot of it (vp run)
 SPEC = ROOT + '/spec'
 HARN = ROOT + '/harness'
 WORK = ROOT + '/work'
